@@ -360,6 +360,9 @@ pub fn run(tier: Tier) -> i32 {
                 n_pragma.fetch_add(1, Ordering::Relaxed);
                 let bad = match (gone, &o) {
                     (Some(flag), Outcome::Ok(b)) => Some((format!("C13/ungated-near-pragma/flag={}/form={}/device={}", flag, fm.name, d.name), format!("{} lacks `{}` (flag {}) but with `{}` {} it assembles to {}", d.name, fm.name, flag, p, ["in front of it", "behind it", "around it"][place], sut::hex_trunc(&b.code, 16)))),
+                    // (a tree that honours `INSTRUCTIONS_NOT_SUPPORTED break` by refusing break as well
+                    // goes beyond the table, but not against what the pragma says: not demanded)
+                    (None, Outcome::Err(_)) if fm.name == "break" && p.contains("NOT_SUPPORTED break") => None,
                     (None, Outcome::Err(e)) if nodev.contains_key(&c.text()) => Some((format!("C13/over-rejected-near-pragma/form={}/device={}/pragma={}", fm.name, d.name, pi), format!("{} has `{}` but with `{}` {} it is rejected: {}", d.name, fm.name, p, ["in front of it", "behind it", "around it"][place], e))),
                     (None, Outcome::Ok(b)) => {
                         // same bytes as without the pragma (lds/sts: the row's form)
